@@ -8,26 +8,37 @@ open Core.Val
 deriving instance DecidableEq for State
 deriving instance Hashable for SrcEnd, QItem, FPc, CPc, Raised, State
 
-def isTau : Act → Bool
+def isTau (obsSubmit : Bool) : Act → Bool
   | .fcheck | .stopSeen | .put | .putEnd | .putExc | .get | .raiseItem | .setStop
   | .drainCancel | .drainSkip | .drainMark | .drainEmpty => true
+  | .submit => !obsSubmit
   | _ => false
 
-def tauActs : List Act :=
+def tauActs (obsSubmit : Bool) : List Act :=
   [.fcheck, .stopSeen, .put, .putEnd, .putExc, .get, .raiseItem, .setStop,
-   .drainCancel, .drainSkip, .drainMark, .drainEmpty]
+   .drainCancel, .drainSkip, .drainMark, .drainEmpty] ++ (if obsSubmit then [] else [.submit])
 
-def sys (c : Cfg) : LSys State Act Act :=
+/-- `obsSubmit = false`: the harness could not observe the hand-over of an element to the pool
+    (e.g. the executor is created somewhere it cannot shadow): `submit` is then inferred like the
+    other internal steps instead of being required as an event. -/
+def sys (c : Cfg) (obsSubmit : Bool := true) : LSys State Act Act :=
   { step := step c
-    label := fun a => if isTau a then none else some a
-    taus := fun _ => tauActs
-    cands := fun _ e => if isTau e then [] else [e] }
+    label := fun a => if isTau obsSubmit a then none else some a
+    taus := fun _ => tauActs obsSubmit
+    cands := fun _ e => if isTau obsSubmit e then [] else [e] }
 
-theorem sys_wf (c : Cfg) : WF (sys c) := by
+theorem mem_tauActs (b : Bool) (a : Act) (h : a ∈ tauActs b) : isTau b a = true := by
+  cases b
+  · simp [tauActs] at h
+    rcases h with h | h | h | h | h | h | h | h | h | h | h | h | h <;> subst h <;> rfl
+  · simp [tauActs] at h
+    rcases h with h | h | h | h | h | h | h | h | h | h | h | h <;> subst h <;> rfl
+
+theorem sys_wf (c : Cfg) (obsSubmit : Bool) : WF (sys c obsSubmit) := by
   constructor
   · intro s a ha
-    simp only [sys, tauActs, List.mem_cons, List.not_mem_nil, or_false] at ha
-    rcases ha with h | h | h | h | h | h | h | h | h | h | h | h <;> subst h <;> rfl
+    have := mem_tauActs obsSubmit a ha
+    simp [sys, this]
   · intro s e a ha
     simp only [sys] at ha ⊢
     split at ha
@@ -78,6 +89,7 @@ structure St where
   k : Nat := 0
   dead : Bool := true      -- no case open / already rejected
   maxStates : Nat := 0
+  obsSubmit : Bool := true
 
 def summaryOk (kv : List (String × String)) (s : State) : Bool :=
   s.out.length == Drv.getN kv "out" && showRaised s.raised == Drv.getS kv "raised" "none"
@@ -90,7 +102,8 @@ partial def loop (h : IO.FS.Stream) (st : St) : IO Unit := do
   match ws with
   | "case" :: id :: rest =>
     let c := mkCfg (Drv.kvs rest)
-    loop h { id := id, cfg := c, fuel := 4 * c.cap + 40, ss := [init], k := 0, dead := false }
+    loop h { id := id, cfg := c, fuel := 4 * c.cap + 40, ss := [init], k := 0, dead := false,
+             obsSubmit := Drv.getN (Drv.kvs rest) "obs_submit" 1 == 1 }
   | "e" :: name :: rest =>
     if st.dead then loop h st else
     let idx := rest.head?.bind String.toNat?
@@ -99,15 +112,15 @@ partial def loop (h : IO.FS.Stream) (st : St) : IO Unit := do
       IO.println s!"REJECT {st.id} {st.k} bad-event {name}"
       loop h { st with dead := true }
     | some a =>
-      let ss' := vstepW (sys st.cfg) st.fuel Ev.act keep st.ss { act := a, idx := idx }
+      let ss' := vstepW (sys st.cfg st.obsSubmit) st.fuel Ev.act keep st.ss { act := a, idx := idx }
       if ss'.isEmpty then
-        IO.println s!"REJECT {st.id} {st.k} event `{name} {rest}` not enabled in any of {(tauCloseW (sys st.cfg) st.fuel st.ss).length} compatible model states"
+        IO.println s!"REJECT {st.id} {st.k} event `{name} {rest}` not enabled in any of {(tauCloseW (sys st.cfg st.obsSubmit) st.fuel st.ss).length} compatible model states"
         loop h { st with dead := true }
       else loop h { st with ss := ss', k := st.k + 1, maxStates := max st.maxStates ss'.length }
   | "end" :: rest =>
     if st.dead then loop h st else
     let kv := Drv.kvs rest
-    let fin := tauCloseW (sys st.cfg) st.fuel st.ss
+    let fin := tauCloseW (sys st.cfg st.obsSubmit) st.fuel st.ss
     let wantFinal := Drv.getN kv "final" == 1
     let partialRun := Drv.getN kv "partial" == 1
     let good := fin.filter (fun s => partialRun || (summaryOk kv s && (!wantFinal || decide (Final s))))
